@@ -13,6 +13,7 @@ import (
 	"encoding/json"
 	"fmt"
 	"os"
+	"runtime"
 	"sort"
 	"strconv"
 	"strings"
@@ -64,6 +65,13 @@ type recReporter struct {
 	total int        // calls so far
 	sig   chan struct{}
 	argID func(interface{}) string // optional: identity of harness-owned values (scripted errors)
+	delay time.Duration            // slowed reporter: a call is recorded only after this long (see acloseMock)
+}
+
+func (r *recReporter) setDelay(d time.Duration) {
+	r.mu.Lock()
+	r.delay = d
+	r.mu.Unlock()
 }
 
 func (r *recReporter) Errorf(format string, args ...interface{}) {
@@ -76,6 +84,12 @@ func (r *recReporter) Errorf(format string, args ...interface{}) {
 			}
 		}
 		vals = append(vals, fmt.Sprint(a))
+	}
+	r.mu.Lock()
+	d := r.delay
+	r.mu.Unlock()
+	if d > 0 {
+		time.Sleep(d) // like a slow testing.T: the report is "made" when Errorf returns
 	}
 	r.mu.Lock()
 	r.calls = append(r.calls, vals)
@@ -547,7 +561,48 @@ func (h *prodHarness) closeMock(rec *vRec) {
 		bad = guard(5*time.Second, func() { _ = h.sync.Close() })
 	}
 	rep, txt := h.rep.take()
-	rec.Ev("close", kv{"outs": h.drain(), "rep": rep, "reptxt": txt, "err": bad})
+	rec.Ev("close", kv{"how": "close", "outs": h.drain(), "rep": rep, "reptxt": txt, "late": [][]string{}, "err": bad})
+}
+
+// acloseMock is the other shutdown path of the async mock: AsyncClose(), then drain Successes() and
+// Errors() until both are closed - that is the completion signal a user of AsyncClose has. The reports
+// made until then ("rep") and the ones made only afterwards ("late", collected until the mock's
+// goroutine has ended) are recorded separately. The reporter is slowed during this step so that a
+// report which the mock starts only after closing the channels cannot slip into "rep" by luck.
+func (h *prodHarness) acloseMock(rec *vRec) {
+	h.rep.setDelay(10 * time.Millisecond)
+	outs := [][]interface{}{}
+	bad := guard(5*time.Second, func() {
+		h.async.AsyncClose()
+		sc, ec := h.async.Successes(), h.async.Errors()
+		for sc != nil || ec != nil {
+			select {
+			case m, ok := <-sc:
+				if !ok {
+					sc = nil
+					continue
+				}
+				outs = append(outs, []interface{}{midOf(m), "succ", "-", int(m.Offset), int(m.Partition)})
+			case e, ok := <-ec:
+				if !ok {
+					ec = nil
+					continue
+				}
+				outs = append(outs, []interface{}{midOf(e.Msg), "err", errID(e.Err), -1, int(e.Msg.Partition)})
+			}
+		}
+	})
+	rep, txt := h.rep.take() // the completion signal has just been observed
+	if bad == "" {
+		select {
+		case <-h.async.closed:
+		case <-time.After(5 * time.Second):
+			bad = "hang: the mock's goroutine did not end within 5s after AsyncClose"
+		}
+	}
+	late, ltxt := h.rep.take()
+	h.rep.setDelay(0)
+	rec.Ev("close", kv{"how": "aclose", "outs": outs, "rep": rep, "reptxt": append(txt, ltxt...), "late": late, "err": bad})
 }
 
 // csend submits all messages from concurrent goroutines (after the expectations were set).
@@ -665,6 +720,9 @@ func runProducerCase(rec *vRec, c *mCase, conc bool) {
 		case "close":
 			h.closeMock(rec)
 			closed = true
+		case "aclose":
+			h.acloseMock(rec)
+			closed = true
 		}
 	}
 	if !closed && h.async != nil {
@@ -718,12 +776,83 @@ func consErrID(e *sarama.ConsumerError, p int) int {
 	return ce.id
 }
 
+// feeder: a goroutine that calls YieldMessage for a script of messages, as a test feeding a
+// consumer under test from the side would.
+type feeder struct {
+	slot int
+	done chan struct{}
+}
+
+// feederLoop is a named function so that the feeder goroutine can be found in a goroutine dump.
+func feederLoop(pc *PartitionConsumer, slot, n int, done chan struct{}) {
+	defer close(done)
+	defer func() { _ = recover() }() // a feeder cut off by a closed channel must not kill the run
+	for k := 1; k <= n; k++ {
+		pc.YieldMessage(&sarama.ConsumerMessage{Value: []byte("m" + strconv.Itoa(10*slot+k))})
+	}
+}
+
+// atRest waits until the feeder goroutine has finished or is provably blocked (its goroutine is
+// parked in a channel operation / lock inside YieldMessage according to the runtime's goroutine dump).
+func (f *feeder) atRest() string {
+	buf := make([]byte, 1<<16)
+	deadline := time.Now().Add(5 * time.Second)
+	for {
+		select {
+		case <-f.done:
+			return ""
+		default:
+		}
+		n := runtime.Stack(buf, true)
+		for _, g := range strings.Split(string(buf[:n]), "\n\n") {
+			if !strings.Contains(g, "mocks.feederLoop") {
+				continue
+			}
+			hdr := g
+			if i := strings.Index(g, "\n"); i >= 0 {
+				hdr = g[:i]
+			}
+			for _, st := range []string{"[chan send", "[select", "[semacquire", "[sync."} {
+				if strings.Contains(hdr, st) {
+					return ""
+				}
+			}
+		}
+		if time.Now().After(deadline) {
+			return "hang: the feeder neither finished nor blocked within 5s"
+		}
+		time.Sleep(20 * time.Microsecond)
+	}
+}
+
 func runConsumerCase(rec *vRec, c *mCase) {
 	rec.Reset(kv{"what": "cons", "mode": "-", "pk": "rr", "npa": 1, "npd": 1, "rets": true, "conc": false, "script": []string{}})
 	rep := &recReporter{}
-	cons := NewConsumer(rep, nil)
+	var cfg *sarama.Config
+	for _, op := range c.Ops {
+		if op.Op == "feed" { // a fed case runs on a mock with the scripted channel buffer size
+			cfg = sarama.NewConfig()
+			cfg.ChannelBufferSize = op.Off
+		}
+	}
+	cons := NewConsumer(rep, cfg)
 	mocks := map[int]*PartitionConsumer{}
 	handles := map[int]sarama.PartitionConsumer{}
+	var fd *feeder
+	defer func() {
+		// let a feeder that is still blocked run to its end (nobody closes the channels under it)
+		if fd != nil {
+			for {
+				select {
+				case <-fd.done:
+					return
+				case <-handles[fd.slot].Messages():
+				case <-time.After(5 * time.Second):
+					return
+				}
+			}
+		}
+	}()
 	for _, op := range c.Ops {
 		ret := "ok"
 		val := []interface{}{0, 0, 0, "-"}
@@ -761,7 +890,31 @@ func runConsumerCase(rec *vRec, c *mCase) {
 						ret = "other"
 					}
 				}
+			case "feed":
+				fd = &feeder{slot: p, done: make(chan struct{})}
+				go feederLoop(mocks[p], p, op.Id, fd.done)
 			case "readmsg":
+				var wait <-chan time.Time // nil: do not wait (the message must be there already)
+				if fd != nil && fd.slot == p {
+					wait = time.After(5 * time.Second) // fed slot: the message is handed over by the feeder
+				}
+				if wait != nil {
+					select {
+					case m, ok := <-handles[p].Messages():
+						if !ok {
+							val = []interface{}{-1, -1, -1, "closed"}
+						} else {
+							mid, err := strconv.Atoi(strings.TrimPrefix(string(m.Value), "m"))
+							if err != nil {
+								mid = -1
+							}
+							val = []interface{}{mid, int(m.Offset), int(m.Partition), m.Topic}
+						}
+					case <-wait:
+						val = []interface{}{-1, -1, -1, "empty"}
+					}
+					break
+				}
 				select {
 				case m, ok := <-handles[p].Messages():
 					if !ok {
@@ -832,6 +985,9 @@ func runConsumerCase(rec *vRec, c *mCase) {
 				}
 			}
 		})
+		if fd != nil && bad == "" {
+			bad = fd.atRest() // observe the read APIs with the feeder blocked in its send or finished
+		}
 		// read APIs after every step: PartitionConsumer.HighWaterMarkOffset() of every registered slot and
 		// the complete Consumer.HighWaterMarks() map (entry per slot, -1 = the map has no such entry)
 		hwm := []int{-1, -1, -1, -1}
